@@ -30,6 +30,8 @@ pub struct FileState {
     path: String,
     persister: Arc<PersisterKind>,
     encryptor: Option<Arc<EncryptorKind>>,
+    // Serializes index allocation and the append of the entry carrying that index.
+    apply_lock: tokio::sync::Mutex<()>,
 }
 
 impl FileState {
@@ -48,6 +50,7 @@ impl FileState {
             persister,
             encryptor,
             version: version.get_numeric_version().expect("Invalid version"),
+            apply_lock: tokio::sync::Mutex::new(()),
         }
     }
 
@@ -292,11 +295,14 @@ impl State for FileState {
 
     async fn apply(&self, user_id: u32, command: EntryCommand) -> Result<(), IggyError> {
         debug!("Applying state entry with command: {command}, user ID: {user_id}");
+        // Entries must reach the file in index order and an index must not be consumed by a failed append,
+        // so allocation and append form one critical section and the counters move only after a successful write.
+        let _apply_guard = self.apply_lock.lock().await;
         let timestamp = IggyTimestamp::now();
         let index = if self.entries_count.load(Ordering::SeqCst) == 0 {
             0
         } else {
-            self.current_index.fetch_add(1, Ordering::SeqCst) + 1
+            self.current_index.load(Ordering::SeqCst) + 1
         };
         let term = self.term.load(Ordering::SeqCst);
         let current_leader = self.current_leader.load(Ordering::SeqCst);
@@ -350,7 +356,6 @@ impl State for FileState {
             command,
         );
         let bytes = entry.to_bytes();
-        self.entries_count.fetch_add(1, Ordering::SeqCst);
         self.persister
             .append(&self.path, &bytes)
             .await
@@ -361,6 +366,8 @@ impl State for FileState {
                     bytes.len()
                 )
             })?;
+        self.current_index.store(index, Ordering::SeqCst);
+        self.entries_count.fetch_add(1, Ordering::SeqCst);
         debug!("Applied state entry: {entry}");
         Ok(())
     }
